@@ -137,6 +137,9 @@ pub fn worker(a: &HashMap<String, String>) {
         *totals.entry(format!("policy.{}", policy)).or_insert(0) += 1;
         *totals.entry(format!("elem.{:?}", case.elem)).or_insert(0) += 1;
         *totals.entry(format!("host.{:#x}", case.host)).or_insert(0) += 1;
+        if case.host != props::HOST_ALL {
+            *totals.entry("fault.host.level".to_string()).or_insert(0) += 1;
+        }
         let line = RunLine {
             idx,
             case_hash: case_hash(&case),
